@@ -285,6 +285,9 @@ class StmtMixin:
             return [(N_, s)]
 
         def bad(s):
+            if kind == "assumed":
+                self.assumptions_used.add("assert #%d in %s is assumed, not proved" % (ordinal, fn.fqn if isinstance(fn, FuncInfo) else fn))
+                return []
             if kind == "usage":
                 # the caller violated the documented usage: path is outside "valid programs"
                 return self.raise_exc(s, "AssertionError", "usage#%d" % ordinal)
